@@ -43,6 +43,8 @@ class EvalContext(metaclass=NamespaceableMeta):
                 node = self._cfgobj[key]
                 return self._eval_ctx.evaluate_node(node, self._path + [key])
 
+            if self._eval_ctx._require_all_safe and ('path', str(self._path + [key])) in self._eval_ctx._tainted:
+                raise errors.UnsafeError(f'Note: the current context requires all evaluated nodes to be safe but the value already evaluated for {str(self._path + [key])!r} was computed from at least one !unsafe node', self._cfgobj[key], str(self._path + [key]))
             return super().__getitem__(key)
 
         def __getattr__(self, name):
